@@ -117,9 +117,12 @@ def random_history(ctx):
     size = rng.choice([0, 0, 0, 3, 5, 8, 20]) * MSS
     if size and rng.random() < 0.3:
         size += rng.choice([1, 100, 511])
-    return {"cc": "cubic" if cubic else "reno", "cwnd": cwnd, "ssthresh": ssth,
-            "rtt0": rng.choice([den, den, den // 2, 2 * den, den // 8]), "den": den, "size": size, "ev": ev[:n + 6],
-            "src": "random"}
+    sc = {"cc": "cubic" if cubic else "reno", "cwnd": cwnd, "ssthresh": ssth,
+          "rtt0": rng.choice([den, den, den // 2, 2 * den, den // 8]), "den": den, "size": size, "ev": ev[:n + 6],
+          "src": "random"}
+    if not cubic and rng.random() < 0.2:
+        sc["echo"] = 1          # timer retransmissions are acknowledged inside out.put()
+    return sc
 
 
 def classify(ctx, sc, tr):
